@@ -46,7 +46,7 @@ class C20(BaseCheck):
              'scales.core:ScalesUriParser.Parse')
   REQUIRED_ANCHORS = ANCHORS
   REQUIRED_CLASSES = ('name:plain', 'name:x_', 'name:x__', 'name:_x', 'name:__x__', 'uri:tcp', 'uri:zk',
-                      'uri:bad', 'result:error', 'result:later', 'inherited')
+                      'uri:bad', 'result:error', 'result:later', 'inherited', 'function-name-differs', 'alias')
   ASSUMPTIONS = ('public method = name not starting with an underscore; names that collide with '
                  'another method\'s _async form or with the proxy base class are not generated',)
   QUICK_CASES = 1200
@@ -88,10 +88,21 @@ class C20(BaseCheck):
             def m(self, a=1, **kw): body_calls.append(name); return 'BODY'
           else:
             def m(self): body_calls.append(name); return 'BODY'
-          m.__name__ = name
+          # the attribute name is what identifies the method; the function object's own
+          # __name__ may differ (decorator without functools.wraps, factory-made stubs)
+          fn_name = rng.choice([name, name, name, 'wrapper', 'stub', 'm'])
+          m.__name__ = fn_name
+          if fn_name != name:
+            classes.add('function-name-differs')
           return m
         ns[name] = make()
         all_methods[name] = (shape, sig, level)
+        if rng.random() < 0.15 and not name.startswith('_') and ns[name].__name__ == name:
+          alias = rng.choice(['alias', 'fetch', 'lookup2']) + str(rng.randint(0, 9))
+          if alias not in all_methods and alias not in ns and alias not in RESERVED:
+            ns[alias] = ns[name]          # 'fetch = get'
+            all_methods[alias] = ('plain', sig, level)
+            classes.add('alias')
       base = type('Iface%d_%d' % (idx, level), (base,), ns)
     Iface = base
     # drop names colliding with another method's _async form
